@@ -434,7 +434,7 @@ def native_replay(prop, unit, failure, cfg, rundir):
     for name in rp.get("args", []):
         if name in inputs:
             args.append("%s=%s" % (name, inputs[name]["value"]))
-    env = dict(os.environ, ASAN_OPTIONS="detect_leaks=1:abort_on_error=0", UBSAN_OPTIONS="print_stacktrace=0")
+    env = dict(os.environ, ASAN_OPTIONS="detect_leaks=%d:abort_on_error=0" % (1 if rp.get("leaks") else 0), UBSAN_OPTIONS="print_stacktrace=0")
     try:
         p = subprocess.run([exe] + args, stdout=subprocess.PIPE, stderr=subprocess.STDOUT, text=True,
                            timeout=rp.get("timeout", 120), env=env)
